@@ -75,7 +75,7 @@ def ref_meta(n, info, memo):
 
 class Metadata(Facet):
     name = "node_metadata"
-    flags = Flags(dependent=False, user_mh=False, max_concrete=6, tuples=True, unions=True)
+    flags = Flags(dependent=False, user_mh=True, max_concrete=6, tuples=True, unions=True)
     reps = ("tree", "ge", "sge", "dsge")
 
     def budget(self, tier):
